@@ -88,14 +88,9 @@ def scenarios(env, tmp, tier):
                                both=(pre + ['dist', '--no-progress'] + kargs + qa + [a.replace('--q', '--r') if a.startswith('--q') else ('-r' if a == '-q' else a) for a in qa]) if sq else None)
 
 
-def run(ctx):
-    ctx.mc('MC_Csv', 'MC_Csv.cfg', coverage=False, workers=1, note='CSV reader/writer round trip over all 2-field rows with fields <= 2 chars over {x , " LF CR space e-acute}, both dialects (ASSUMEs)')
-    ctx.mc('BulkDist', 'MC_BulkDist.cfg', overrides=dict(MaxQ=2, MaxR=3, MaxSel=3, MaxChunk=3), workers=8,
-           note='the matrix / pairwise loops behind the command (shared with C05)')
-    ctx.mc('MC_Cli', 'MC_Cli.cfg', workers=8, note='parameter selection of the command (shared with C14)')
-    tmp = tlc.mktmp('c16-')
-    try:
-        env = setup(tmp, ctx.seed)
+def run_set(ctx, tmp, seed):
+    if True:
+        env = setup(tmp, seed)
         scs = list(scenarios(env, tmp, ctx.tier))
         jobs = []
         for i, sc in enumerate(scs):
@@ -117,6 +112,21 @@ def run(ctx):
                              rc=rc, stderr=se[-200:], square=sc['square'], text=cps(text), text_both_sides=cps(text2),
                              q=[dict(label=dict(kind=k, v=cps(v)), contigs=[blist(c.encode()) for c in g]) for (k, v), g in zip(sc['qlab'], sc['qseqs'])],
                              r=[dict(label=dict(kind=k, v=cps(v)), contigs=[blist(c.encode()) for c in g]) for (k, v), g in zip(sc['rlab'], sc['rseqs'])]))
+        return recs
+
+
+def run(ctx):
+    ctx.mc('MC_Csv', 'MC_Csv.cfg', coverage=False, workers=1, note='CSV reader/writer round trip over all 2-field rows with fields <= 2 chars over {x , " LF CR space e-acute}, both dialects (ASSUMEs)')
+    ctx.mc('BulkDist', 'MC_BulkDist.cfg', overrides=dict(MaxQ=2, MaxR=3, MaxSel=3, MaxChunk=3), workers=8,
+           note='the matrix / pairwise loops behind the command (shared with C05)')
+    ctx.mc('MC_Cli', 'MC_Cli.cfg', workers=8, note='parameter selection of the command (shared with C14)')
+    tmp = tlc.mktmp('c16-')
+    try:
+        recs = []
+        for rep in range(1 if ctx.tier == 'quick' else 4):
+            sub = os.path.join(tmp, f'set{rep}')
+            os.makedirs(sub)
+            recs += run_set(ctx, sub, ctx.seed + 101 * rep)
         n, bad = tlc.judge('Judge_C16', recs)
         for i, why in bad:
             r = recs[i]
